@@ -1771,7 +1771,6 @@ func g8PrefixOpaqueSelfTest() bool {
 	return found
 }
 
-
 // walkLoop: a loop that visits the elements of a slice X front to back — `for [i], v := range X`, `for i := range X`
 // or `for i := 0; i < len(X); i++`.
 type walkLoop struct {
